@@ -926,6 +926,9 @@ func unop(fr *frame, instr *ssa.UnOp, x value) value {
 		if p == nil {
 			panic(i.rtPanic("invalid memory address or nil pointer dereference"))
 		}
+		if i.race != nil {
+			i.raceAccessT(mustDeref(instr.X.Type()), p, false, fr)
+		}
 		return load(mustDeref(instr.X.Type()), p)
 	case token.NOT:
 		return !x.(bool)
@@ -1010,12 +1013,20 @@ func callBuiltin(caller *frame, callpos token.Pos, fn *ssa.Builtin, args []value
 			arg0 := args[0].([]value)
 			if len(arg0)+strLen(s) <= cap(arg0) && strLen(s) > 0 {
 				i.publishedArrWrite(arg0, "append")
+				i.raceSlice(arg0[len(arg0):len(arg0)+strLen(s)], true)
 			}
 			return append(arg0, strBytes(s)...)
 		}
 		// append([]T, ...[]T) []T
 		if a0, a1 := args[0].([]value), args[1].([]value); len(a1) > 0 && len(a0)+len(a1) <= cap(a0) {
 			i.publishedArrWrite(a0, "append")
+			i.raceSlice(a0[len(a0):len(a0)+len(a1)], true)
+		}
+		if i.race != nil {
+			if a0, a1 := args[0].([]value), args[1].([]value); len(a0)+len(a1) > cap(a0) {
+				i.raceSlice(a0, false) // growing copies the old elements
+			}
+			i.raceSlice(args[1].([]value), false)
 		}
 		return append(args[0].([]value), args[1].([]value)...)
 
@@ -1027,6 +1038,16 @@ func callBuiltin(caller *frame, callpos token.Pos, fn *ssa.Builtin, args []value
 		}
 		if len(src.([]value)) > 0 && len(args[0].([]value)) > 0 {
 			i.publishedArrWrite(args[0].([]value), "copy")
+		}
+		if i.race != nil {
+			n := len(src.([]value))
+			if d := len(args[0].([]value)); d < n {
+				n = d
+			}
+			i.raceSlice(args[0].([]value)[:n], true)
+			if _, isSlice := args[1].([]value); isSlice {
+				i.raceSlice(src.([]value)[:n], false)
+			}
 		}
 		return copy(args[0].([]value), src.([]value))
 
